@@ -226,8 +226,15 @@ def stream_thirdparty(c, N, tmp):
         # member: binary re-writes are only exercised for files whose series are in member order without virtual series
         # (both are genuine defects of the unchanged code, reported to the coordinator; minimal inputs: series
         # (A, member 1), (A, member 0) in this order; series A without index next to B of members 0 and 1)
-        rewrite = (not binary) or case["ens"] == "none" or (
-            case["sorted_members"] and not any(s["member"] is None for s in case["series"]))
+        # Third defect of the same path (XML): a padded series without member index gets its appended <event>s once per
+        # member (ET.Element('pi:event') is not found by findall('pi:event', ns) in the next member's pass); invisible
+        # for equidistant files (surplus events are ignored), but a nonequidistant re-read takes its stamps from the
+        # longest event list: nonequidistant files with such a series are not re-written here either.
+        virt = case["ens"] != "none" and any(s["member"] is None for s in case["series"])
+        if binary:
+            rewrite = case["ens"] == "none" or (case["sorted_members"] and not virt)
+        else:
+            rewrite = not (virt and case["d"] is None)
 
         def real():
             dc = rtc.DataConfig(d)
